@@ -512,6 +512,21 @@ func c02Negative() []refTree {
 			out = append(out, refTree{Root: "w/root.json", Files: map[string]string{"w/root.json": mustJSON(root), "w/lib.json": mustJSON(libDoc)}, External: true,
 				Plans: []refPlan{{Position: pos.name, Kind: pos.kind, Form: "fragment", Shape: "direct", Ref: "lib.json#/" + top + "/Foo", Fails: "missing-fragment-present-in-referrer"}}})
 		}
+		// files that hold nothing but a reference and lead back to each other: no object is ever reached
+		if pos.kind == "schema" {
+			for _, two := range []bool{false, true} {
+				root = refRootSkeleton()
+				pos.plant(root, gen.S{"$ref": "a.json"})
+				files := map[string]string{"w/root.json": mustJSON(root), "w/a.json": `{"$ref":"a.json"}`}
+				why := "whole-file-alias-cycle:self"
+				if two {
+					files["w/a.json"], files["w/b.json"] = `{"$ref":"b.json"}`, `{"$ref":"a.json"}`
+					why = "whole-file-alias-cycle:two-files"
+				}
+				out = append(out, refTree{Root: "w/root.json", Files: files, External: true,
+					Plans: []refPlan{{Position: pos.name, Kind: pos.kind, Form: "whole-file", Shape: "direct", Ref: "a.json", Fails: why}}})
+			}
+		}
 		// array indexes that are no JSON-pointer indexes (leading zeros, a sign, blanks) designate nothing
 		if pos.kind == "schema" {
 			for _, badIdx := range []string{"01", "+1", "1 ", "00", "1.0", "-0"} {
